@@ -21,8 +21,11 @@ MUST_HAVE = {
     "Decl", "Typedef", "FuncDef", "ID", "Constant", "BinaryOp", "UnaryOp", "TernaryOp",
     "Assignment", "Cast", "ArrayRef", "StructRef", "FuncCall", "If", "While", "DoWhile",
     "For", "Switch", "Case", "Default", "Label", "Goto", "Break", "Continue", "Return",
-    "Compound", "EmptyStatement", "Pragma", "StaticAssert",
+    "Compound", "EmptyStatement", "Pragma", "StaticAssert", "Enumerator",
 }
+# an unnamed parameter is a declaration too: its node is a Typename (a Typename
+# that is the operand of sizeof / a cast is not a declaration and not demanded)
+MUST_HAVE_UNDER = {("Typename", "ParamList")}
 ILLEGAL = ["@", "`", "\\"]
 # classes whose coordinate must be the token that opens the construct
 # ("a token of the input that lies inside the construct the node represents")
@@ -77,7 +80,7 @@ def check_ast(ast, lay, fails, text, counts):
         cls = node.__class__.__name__
         c = node.coord
         if c is None:
-            if cls in MUST_HAVE:
+            if cls in MUST_HAVE or (cls, parent.__class__.__name__) in MUST_HAVE_UNDER:
                 if cls == "Decl" and node.name is None:
                     sub = "unnamed"
                 else:
@@ -157,6 +160,22 @@ def _dirs(g):
         k = g[1]
         return {k: [layout.line_directive(1, f"r{k}.h", flags=(1,), keyword=False)]}
     return {g: [layout.line_directive(100 + 7 * g, f"inc{g}.h", flags=(1,), keyword=(g % 2 == 0))]}
+
+
+def pragma_respacings(toks):
+    """The blanks inside a #pragma line are layout: every pragma token with
+    blanks between '#' and the word (and between the word and the text); the
+    coordinates of Pragma nodes / wrapping Compounds must still name a token."""
+    out = []
+    for i, t in enumerate(toks):
+        if "#" in t and layout.is_pragma_token(t):
+            body = t.rstrip("\n")
+            text = body[body.index("pragma") + 6:].lstrip(" \t")
+            for hg, tg in ((" ", " "), ("\t", "  "), ("  \t ", "\t")):
+                alt = list(toks)
+                alt[i] = "#" + hg + "pragma" + ((tg + text) if text else "") + "\n"
+                out.append(alt)
+    return out
 
 
 def evaluate(toks, lname, g, counts, filename=None):
@@ -241,6 +260,12 @@ def _work(task):
                     fails.extend(fl2)
         if ok_any:
             progs += 1
+            for alt in pragma_respacings(toks):
+                for lname in ("line", "tokperline"):
+                    for g in (None, 0, len(alt)):
+                        acc, fl = evaluate(alt, lname, g, counts)
+                        n += 1
+                        fails.extend(fl)
     return n, fails, counts, progs
 
 
